@@ -832,6 +832,42 @@ pub fn o14(dir: &str, thorough: bool, seed: u64) {
                     out.oracle(ans != "panic", "C14", "string entry point panicked", &format!("{} k={} {variant} `{f}` ctx={:?}", xg.name, xg.k, ctx.keys().collect::<Vec<_>>()));
                 }
             }
+            // "any context map": sets that belong to a graph of the same network with ANOTHER number of variable sets.
+            // A formula that uses such a set must get an error value (not a panic, and not a result computed from an
+            // incompatible BDD); a formula that does not use it is unaffected.
+            if let Ok(other) = Xg::new(&xg.name, &xg.bn.to_string(), xg.k + 1) {
+                let mut foreign = Ctx::new();
+                foreign.insert(s("p"), other.graph.mk_unit_colored_vertices());
+                foreign.insert(s("d"), other.graph.mk_unit_colored_vertices());
+                let a0 = xg.var_names[0].clone();
+                let mut using: Vec<String> = vec![s("%p%"), format!("EF (%p% & {a0})")];
+                if xg.k >= 1 {
+                    using.push(s("3{x} in %d%: @{x}: true"));
+                    using.push(format!("!{{x}} in %d%: AX ({{x}} | {a0})"));
+                }
+                for f in using {
+                    for (variant, san) in [("ext_dirty", false), ("ext_san", true)] {
+                        let fs = vec![f.as_str()];
+                        let r = guarded(std::panic::AssertUnwindSafe(|| {
+                            if san {
+                                model_check_multiple_extended_formulae(fs.clone(), &xg.graph, &foreign).map(|_| ())
+                            } else {
+                                model_check_multiple_extended_formulae_dirty(fs.clone(), &xg.graph, &foreign).map(|_| ())
+                            }
+                        }));
+                        out.count("foreign_context");
+                        out.oracle(matches!(r, Ok(Err(_))), "C14",
+                            "a context set of a graph with another number of variable sets is not rejected with an error value",
+                            &format!("{} k={} {variant} `{f}`: {}", xg.name, xg.k, match &r { Ok(Ok(_)) => "returned a result", Ok(Err(_)) => "error", Err(_) => "PANIC" }));
+                    }
+                }
+                let plain = format!("EF {a0}");
+                let fs = vec![plain.as_str()];
+                let with = guarded(std::panic::AssertUnwindSafe(|| model_check_multiple_extended_formulae_dirty(fs.clone(), &xg.graph, &foreign)));
+                let without = model_check_multiple_formulae_dirty(fs.clone(), &xg.graph);
+                out.oracle(matches!((&with, &without), (Ok(Ok(a)), Ok(b)) if a == b), "C14",
+                    "an unused incompatible context set changes the outcome", &format!("{} k={}", xg.name, xg.k));
+            }
         }
     }
     out.finish();
